@@ -2,14 +2,16 @@
 
 A *scenario* is a table of generated process classes and callback bodies plus the classes instantiated at top level:
 
-    scn = {'classes': [[step, ...], ...], 'cbs': [code, ...], 'top': [class index, ...]}
+    scn = {'classes': [[step, ...], ...], 'cbs': [code, ...], 'top': [class index, ...], 'ext': [[pid, cb], ...]}
+    ext  = callbacks that code outside any task (here: the harness, between two callbacks, at a moment of its choice)
+           schedules on a top-level process with `proc.call_soon(cb)` — what an RPC handler does
     step = {'code': [act, ...], 'end': 'next' | 'wait' | 'finish' | 'raise'}      (the last step ends with finish/raise)
     act  = 'o' sample | 'a' await (bare yield) | 'u' self.out(..) | 'c<k>' self.call_soon(cb k)
          | 'l<k>' self.launch(class k) | 'x<k>' Class_k(...).execute()  (re-entrant, nest_asyncio)
 
 A *schedule* is a list of integers: at every decision of the event loop (outermost or nested inside an `execute()`), the
 harness lists the enabled operations (`tick <tid>` for every ready task in task-id order, then `resume <tid>` for every process
-parked in WAITING) and takes entry `choice % len(enabled)`.
+parked in WAITING, then `ext <pid> <cb>` for every external call_soon not issued yet) and takes entry `choice % len(enabled)`.
 
 Every code point records (owner pid, kind, Process.current(), PROCESS_STACK); the harness records Process.current() itself at
 every decision (kind `loop`).
@@ -148,6 +150,7 @@ class Run:
         self.nest = []           # pids of the processes whose code is inside `other.execute()`, innermost last
         self.max_nest = 0
         self.fatal = None
+        self.pending_ext = [tuple(e) for e in scn.get('ext', [])]
         self.classes = [make_class(self, k) for k in range(len(scn['classes']))]
         self.loop = CtlLoop(self.decide)
 
@@ -205,7 +208,7 @@ class Run:
         while True:
             self.close_chunk()
             ready, parked = self.chunks[-1]['ready'], self.chunks[-1]['parked']
-            options = [('tick', t) for t in ready] + [('resume', t) for t in parked]
+            options = [('tick', t) for t in ready] + [('resume', t) for t in parked] + [('ext', e) for e in self.pending_ext]
             if not options:
                 raise Deadlock()
             if self.pos < len(self.schedule):
@@ -219,6 +222,12 @@ class Run:
             self.pos += 1
             self.taken.append((c, len(options)))
             kind, t = options[c]
+            if kind == 'ext':
+                self.chunks.append(dict(op=f'ext {t[0]} {t[1]}'))
+                self.pending_ext.remove(t)
+                proc = self.procs[t[0]]
+                proc.call_soon(make_cb(self, proc, t[1]))
+                continue
             self.chunks.append(dict(op=f'{kind} {t}'))
             if kind == 'resume':
                 pid = [p for p, tt in self.stepper_of.items() if tt == t][0]
@@ -239,7 +248,7 @@ class Run:
                 self.stepper_of[p._verif_pid] = task._verif_tid
             asyncio.events._set_running_loop(loop)
             try:
-                while loop.live_handles() or self.parked():
+                while loop.live_handles() or self.parked() or self.pending_ext:
                     loop._run_once()
             finally:
                 asyncio.events._set_running_loop(None)
